@@ -362,7 +362,8 @@ def impatient_clients(args, scratch):
 def worker(args, scratch):
     r = common.rng("c13", args["shard"], args["tier"])
     res = {"evaluations": 0, "nontrivial": [], "samples": [], "counts": {}, "violations": []}
-    w = wproxy.World(scratch, runtime="multi:4")
+    wrapper, vgdir = (common.memcheck_wrapper(scratch) if args.get("memcheck") else (None, None))
+    w = wproxy.World(scratch, runtime="multi:4" if not vgdir else "multi:2", wrapper=wrapper)
     try:
         if args["layer"] == "sites":
             site_fuzz(w, res, r)
@@ -372,6 +373,20 @@ def worker(args, scratch):
         res["samples"].append({"layer": args["layer"], "example": "prefix of length cut-delta followed by 2/3/4-byte characters, cut in {1024, 4096}"})
     finally:
         w.close()
+    if vgdir:
+        # supplementary sanitizer pass: the same hostile inputs with the shim under valgrind memcheck
+        time.sleep(0.5)
+        reports, summaries = common.memcheck_reports(vgdir)
+        res["counts"]["memcheck_error_summaries"] = len(summaries)
+        res["counts"]["memcheck_reports"] = len(reports)
+        seen = set()
+        for rp in reports:
+            key = (rp["kind"], rp["first_agent_frame"])
+            if key not in seen:
+                seen.add(key)
+                res["violations"].append(["memcheck:%s" % rp["kind"], rp])
+        if not summaries:
+            res.setdefault("inconclusive", []).append("memcheck slice produced no valgrind summary")
     return res
 
 
@@ -390,7 +405,9 @@ def run(tier, rep):
         corpus = [{"site": "write_event", "text": t} for t, _ in boundary_strings(mr, 4096)[::2]] + [{"site": "status", "text": t} for t, _ in boundary_strings(mr, 1024)[::2]]
         miri.run({"truncation": corpus}, [], rep)
     args = [{"shard": 0, "tier": tier, "layer": "sites"}, {"shard": 1, "tier": tier, "layer": "e2e"}]
-    for res in sandbox.run_many("vf.props.c13", "worker", args, workers=2, timeout=1500):
+    if tier == "thorough":
+        args += [{"shard": 0, "tier": tier, "layer": "sites", "memcheck": True}, {"shard": 1, "tier": tier, "layer": "e2e", "memcheck": True}]
+    for res in sandbox.run_many("vf.props.c13", "worker", args, workers=4, timeout=3000):
         rep.merge_worker(res)
     iargs = [{"shard": i, "tier": tier, "threads": 12, "per_thread": 400 if tier == "quick" else 6000, "rt_threads": [2, 4][i % 2]} for i in range(2 if tier == "quick" else 4)]
     for res in sandbox.run_many("vf.props.c13", "impatient_clients", iargs, workers=len(iargs), timeout=1500):
